@@ -11,3 +11,6 @@ func C_a_SwitchDefault_0() bool { r := a.SwitchDefault(nil); return r == nil }
 func C_a_TypedNil_0() bool { r := a.TypedNil(); return r == nil }
 func C_b_B0_0() bool { r := b.B0(0); return r == nil }
 func C_a_CallMaybeIface_0() bool { r := a.CallMaybeIface(true); return r == nil }
+func C_a_Drain_0() bool { r := a.Drain(a.StopAfter(2)); return r == nil }
+func C_a_Boxed_0() bool { r := a.Boxed(nil); return r == nil }
+func C_a_BoxedNew_0() bool { r := a.BoxedNew(nil); return r == nil }
